@@ -110,7 +110,9 @@ PROPS = {
     "C07": dict(
         gens=[tlc("c07"), rand("views", 500, "quick"), rand("views", 30000, "thorough")],
         tv_props=["C07", "DRIFT"],
-        must_fire=["C07.source_is_text", "C07.buffer", "C07.size_is_buffer_len", "C07.rope_renders_to_text", "C07.writer"],
+        mc=[dict(module="MC_IoM.tla", cfg="MC_IoM"),
+            dict(module="MC_IoM.tla", cfg="MC_IoM_keepgoing", expect="PrefixOnly")],
+        must_fire=["C07.source_is_text", "C07.buffer", "C07.size_is_buffer_len", "C07.rope_renders_to_text", "C07.writer", "C07.writer_script"],
         rule="all five content views plus failing writers; non-trivial = composite tree or a binary leaf",
         nontrivial=lambda p: bool(prog_kinds(p) & {"concat", "replace", "cached"}),
     ),
@@ -148,7 +150,7 @@ PROPS = {
         nontrivial=lambda p: sum(1 for s in p.get("steps", []) if s["op"] in ("map", "stream", "hash", "source", "buffer", "size")) >= 12,
     ),
     "C11": dict(
-        gens=[tlc("c02"), rand("stream_ascii", 600, "quick"), rand("stream_ascii", 30000, "thorough")],
+        gens=[tlc("c02"), tlc("c06r"), rand("stream_ascii", 600, "quick"), rand("stream_ascii", 30000, "thorough")],
         tv_props=["C11", "DRIFT"],
         must_fire=["C11.announce_before_use", "C11.map_well_formed", "C11.map_strictly_increasing",
                    "C11.map_inside_text", "C11.map_indices_in_tables"],
@@ -238,7 +240,7 @@ PROPS = {
     "C15": dict(
         gens=[tlc("c15"), rand("json_maps", 500, "quick"), rand("json_maps", 30000, "thorough")],
         tv_props=["C15"],
-        must_fire=["C15.serialises", "C15.writer_equals_json", "C15.writer_short_writes", "C15.document_matches_value", "C15.round_trip",
+        must_fire=["C15.serialises", "C15.writer_equals_json", "C15.writer_short_writes", "C15.writer_script", "C15.document_matches_value", "C15.round_trip",
                    "C15.entry_points_agree", "C15.document_reads_as_value"],
         rule="SourceMap values whose strings contain quotes, backslashes, control characters, U+2028/2029 and astral characters, optional "
              "fields present/absent; hand-built documents with null entries, missing arrays, reordered and unknown keys; non-trivial = "
